@@ -53,6 +53,22 @@ type Node struct {
 type Universe struct {
 	Nodes []*Node
 	byKey map[string]int
+	// MixedAlgs: digests are sha256, sha384 or sha512 depending on the bytes (all three are
+	// registered algorithms and legal in a layout, a registry or a descriptor)
+	MixedAlgs bool
+}
+
+// desc describes bytes b under media type mt, with the universe's choice of digest algorithm.
+func (u *Universe) desc(mt string, b []byte) ocispec.Descriptor {
+	if !u.MixedAlgs {
+		return descOf(mt, b)
+	}
+	sum := 0
+	for _, c := range b {
+		sum += int(c)
+	}
+	alg := []digest.Algorithm{digest.SHA256, digest.SHA512, digest.SHA384, digest.SHA256}[sum%4]
+	return ocispec.Descriptor{MediaType: mt, Digest: alg.FromBytes(b), Size: int64(len(b))}
 }
 
 func NewUniverse() *Universe { return &Universe{byKey: map[string]int{}} }
@@ -91,7 +107,7 @@ func (u *Universe) AddBlob(mt string, data []byte) *Node {
 		ocispec.MediaTypeImageLayerNonDistributableZstd, docker.MediaTypeForeignLayer:
 		kind = KForeign
 	}
-	return u.add(&Node{Kind: kind, Desc: descOf(mt, data), Bytes: data, Subject: -1, Config: -1})
+	return u.add(&Node{Kind: kind, Desc: u.desc(mt, data), Bytes: data, Subject: -1, Config: -1})
 }
 
 func (u *Universe) descs(ids []int) []ocispec.Descriptor {
@@ -136,7 +152,7 @@ func (u *Universe) AddImage(kind Kind, config int, layers []int, subject int, ar
 		panic(err)
 	}
 	n.Bytes = b
-	n.Desc = descOf(mt, b)
+	n.Desc = u.desc(mt, b)
 	return u.add(n)
 }
 
@@ -166,7 +182,7 @@ func (u *Universe) AddIndex(kind Kind, manifests []int, subject int, artifactTyp
 		panic(err)
 	}
 	n.Bytes = b
-	n.Desc = descOf(mt, b)
+	n.Desc = u.desc(mt, b)
 	return u.add(n)
 }
 
@@ -190,7 +206,7 @@ func (u *Universe) AddArtifact(blobs []int, subject int, artifactType string, an
 		panic(err)
 	}
 	n.Bytes = b
-	n.Desc = descOf(spec.MediaTypeArtifactManifest, b)
+	n.Desc = u.desc(spec.MediaTypeArtifactManifest, b)
 	return u.add(n)
 }
 
@@ -209,6 +225,7 @@ type GenCfg struct {
 	Indexes   bool // allow index kinds
 	EmptyBlob bool
 	NoOctet   bool // never use application/octet-stream (keeps resolveBlob answers distinguishable)
+	MixedAlgs bool // sha256 / sha384 / sha512 digests
 }
 
 var layerMTs = []string{
@@ -221,6 +238,7 @@ var artifactTypes = []string{"", "application/vnd.verif.sig", "application/vnd.v
 
 func GenDAG(rng *rand.Rand, cfg GenCfg) *Universe {
 	u := NewUniverse()
+	u.MixedAlgs = cfg.MixedAlgs
 	var blobs, foreign, images, manifests []int
 	for i := 0; i < cfg.Blobs; i++ {
 		data := []byte(fmt.Sprintf("blob-%d-%x", i, rng.Int63()))
